@@ -1,11 +1,26 @@
 package main
 
-// The oracle: structural well-formedness and closure of one snapshot. Everything here is written
-// from the Envoy v3 API documentation and Envoy's documented load-time rejections (duplicate
-// resource names, "Only unique values for domains are permitted", "multiple filter chains with the
-// same/overlapping matching rules are defined", "Sum of weights in the weighted_cluster must be
-// greater than 0", protoc-gen-validate constraints of the API). No istio function takes part in a
-// verdict.
+// The oracle: structural well-formedness and closure of one snapshot. No istio function takes part in a verdict.
+// Every asserted rule is something Envoy refuses at load time (so that "a proxy can load" the resource fails) or a
+// rule of the xDS API itself; what the Envoy documentation / source leaves open is counted, not asserted.
+//
+//   - duplicate resource names in one CDS / LDS response: Envoy rejects the whole update ("duplicate cluster ...
+//     found", "duplicate listener ... found" in CdsApiImpl / LdsApiImpl::onConfigUpdate);
+//   - virtual-host domains: Router::RouteMatcher lower-cases every domain and throws "Only a single wildcard domain
+//     is permitted in route ..." for a second "*" and "Only unique values for domains are permitted. Duplicate entry
+//     of domain ..." for any other repeated exact, suffix- or prefix-wildcard domain - also within one virtual host;
+//   - filter chains: FilterChainManagerImpl::addFilterChains refuses (a) a filter_chain_match equal (as a message) to
+//     an earlier one ("filter chain '..' has the same matching rules defined as '..'"), (b) "partial wildcards are not
+//     supported in \"server_names\"" (only "*.suffix"), and (c) any two chains that meet in one leaf of its lookup
+//     tries ("multiple filter chains with overlapping matching rules are defined"): destination port, each
+//     destination prefix (CidrRange normalised; none = one empty entry), each server name (lower-cased, "*.x" stored as
+//     ".x"; none = one empty entry), transport protocol, each application protocol, each direct source prefix,
+//     source type, each source prefix, each source port - fcmTuples builds exactly these tuples;
+//   - listener addresses: see checkListenerAddresses;
+//   - weighted clusters (route.v3.WeightedCluster): "The sum of weights across all entries in the clusters array must
+//     be greater than 0, and must not exceed uint32_t maximal value (4294967295)";
+//   - route configurations whose cluster references Envoy validates when loading (validate_clusters);
+//   - protoc-gen-validate constraints of the API (pgv.go).
 
 import (
 	"fmt"
@@ -29,6 +44,9 @@ type finding struct {
 	Rule   string
 	Detail string
 	Msg    string
+	// Info names the concrete things involved (listener, port, server name, virtual hosts ...) for the root-cause
+	// recognisers of explain.go; it never enters a key directly.
+	Info map[string]string
 }
 
 func (f finding) key() string {
@@ -40,31 +58,37 @@ func (f finding) key() string {
 
 // stats are the measured observations of one snapshot check (fed into evidence counters).
 type stats struct {
-	Resources     map[string]int // per xDS type
-	PGVRoots      int
-	PGVMessages   int
-	AnyResolved   map[string]int
-	AnyUnknown    map[string]int
-	NoValidator   map[string]int
-	RDSFollowed   int
-	EDSFollowed   int
-	EDSEmpty      int
-	ECDSFollowed  int
-	ClusterRefs   int // cluster references followed from routes / tcp_proxy
-	ClusterRefsBy map[string]int
-	RefResolved   int
-	RefBuiltin    int
-	RefUnknownSvc int // names a host:port / subset the proxy has no service / subset for (legitimate dangling)
-	RefExempt     int // excused by a user REMOVE patch
-	RefOtherName  int // dangling name that is not direction|port|subset|host (e.g. UnknownService)
-	OtherNames    map[string]bool
-	VHosts        int
-	Domains       int
-	FilterChains  int
-	DupChainNames int // chains sharing a name (legal without filter_chain_matcher)
-	FCMTuples     int
-	Weighted      int
-	Fractions     int
+	Resources        map[string]int // per xDS type
+	PGVRoots         int
+	PGVMessages      int
+	AnyResolved      map[string]int
+	AnyUnknown       map[string]int
+	NoValidator      map[string]int
+	RDSFollowed      int
+	EDSFollowed      int
+	EDSEmpty         int
+	ECDSFollowed     int
+	ECDSMissing      int // extension configs named by a listener that ECDS did not return (counted, not asserted)
+	ClusterRefs      int // cluster references followed from routes / tcp_proxy
+	ClusterRefsBy    map[string]int
+	RefResolved      int
+	RefBuiltin       int
+	RefDanglingKnown int // unasserted: dangling although the proxy was given the service port / subset, or an inbound cluster
+	RefUnknownSvc    int // names a host:port / subset the proxy has no service / subset for (legitimate dangling)
+	RefExempt        int // excused by a user REMOVE patch
+	RefOtherName     int // dangling name that is not direction|port|subset|host (e.g. UnknownService)
+	OtherNames       map[string]bool
+	VHosts           int
+	Domains          int
+	FilterChains     int
+	DupChainNames    int // chains sharing a name (legal without filter_chain_matcher)
+	FCMTuples        int
+	Weighted         int
+	Fractions        int
+	// FractionsAboveOne counts FractionalPercent messages with numerator > denominator (unspecified by the API, loadable).
+	FractionsAboveOne int
+	// DupVHostNames counts virtual hosts sharing a name within one RouteConfiguration (see checkRouteConfiguration).
+	DupVHostNames int
 	InlineRoutes  int
 	Shapes        map[string]bool // interaction shapes observed in the output
 }
@@ -100,6 +124,10 @@ type clusterRef struct {
 	Name   string
 	Source string // route | weighted | mirror | tcp | tcp-weighted
 	Where  string
+	// Validated: the reference sits in a route configuration for which Envoy checks cluster references at load time
+	// (RouteConfiguration.validate_clusters: "defaults to true if the route table is statically defined via the
+	// route_config option, false if via rds"): an unknown cluster then makes Envoy refuse the resource.
+	Validated bool
 }
 
 type checker struct {
@@ -107,10 +135,30 @@ type checker struct {
 	st       *stats
 	findings []finding
 	refs     []clusterRef
+	// validatedRC: location (where + path) of every route configuration whose cluster references Envoy validates
+	validatedRC []string
+}
+
+func (c *checker) inValidatedRC(loc string) bool {
+	for _, p := range c.validatedRC {
+		if strings.HasPrefix(loc, p) {
+			return true
+		}
+	}
+	return false
 }
 
 func (c *checker) add(rule, detail, format string, args ...any) {
 	c.findings = append(c.findings, finding{Rule: rule, Detail: detail, Msg: fmt.Sprintf(format, args...)})
+}
+
+// addInfo is add with the concrete objects involved (key/value pairs).
+func (c *checker) addInfo(info []string, rule, detail, format string, args ...any) {
+	m := map[string]string{}
+	for i := 0; i+1 < len(info); i += 2 {
+		m[info[i]] = info[i+1]
+	}
+	c.findings = append(c.findings, finding{Rule: rule, Detail: detail, Msg: fmt.Sprintf(format, args...), Info: m})
 }
 
 // checkSnapshot evaluates every rule on one snapshot.
@@ -128,13 +176,16 @@ func checkSnapshot(s *snapshot, cx *checkCtx) ([]finding, *stats) {
 		seen := map[string]bool{}
 		for i, n := range names {
 			if seen[n] {
-				c.add("name-duplicate", typ, "%s: resource name %q occurs more than once in one response", typ, n)
+				c.addInfo([]string{"name", n}, "name-duplicate", typ, "%s: resource name %q occurs more than once in one response", typ, n)
 			}
 			seen[n] = true
 			if envs[i] != n {
 				c.add("envelope-name-mismatch", typ, "%s: resource envelope is named %q but the payload is named %q", typ, envs[i], n)
 			}
-			if n == "" {
+			// Cluster.name, ClusterLoadAssignment.cluster_name and TypedExtensionConfig.name carry a min_len rule of their own
+			// (reported as pgv:...); a Listener may be unnamed (API: "If no name is provided, Envoy will allocate an internal
+			// UUID"). A RouteConfiguration delivered by RDS is found by its name only, so an unnamed one can never be loaded.
+			if n == "" && typ == "RDS" {
 				c.add("name-empty", typ, "%s: resource without a name", typ)
 			}
 		}
@@ -196,7 +247,8 @@ func checkSnapshot(s *snapshot, cx *checkCtx) ([]finding, *stats) {
 	for _, n := range s.ECDSRequested {
 		st.ECDSFollowed++
 		if !have[n] {
-			c.add("ecds-not-produced", cx.ProxyKind, "extension config %q is named by a listener filter but ECDS returned no resource of that name", n)
+			// not asserted: the property names route configurations and endpoint sets only
+			st.ECDSMissing++
 		}
 	}
 
@@ -259,11 +311,13 @@ func checkSnapshot(s *snapshot, cx *checkCtx) ([]finding, *stats) {
 			st.RefExempt++
 		case strings.HasPrefix(ref.Name, userNamePrefix):
 			st.RefExempt++
+		case ref.Validated:
+			// the only dangling reference Envoy refuses at load time ("route: unknown cluster '...'")
+			c.add("cluster-ref-unknown-in-validated-route-config", ref.Source, "%s references cluster %q which CDS does not contain, in a route configuration whose cluster references Envoy validates when loading it (validate_clusters)", ref.Where, ref.Name)
 		default:
-			// A reference may legitimately dangle when it names something the proxy has no service for
-			// (VirtualService destination that is not in the registry / not visible / wrong port / subset
-			// without destination rule): Envoy answers 503 for it and loads the resource. It must not
-			// dangle when the proxy was given that service port (and subset).
+			// Any other dangling reference is loadable (Envoy answers 503 / resets the connection at run time) and the
+			// property does not speak of it: classified for the evidence, never asserted. "Known" = the proxy was given
+			// that service port (and subset), so the reference would be expected to resolve.
 			dir, port, subset, hostname, ok := parseClusterName(ref.Name)
 			if !ok {
 				// not a service cluster name (istio's placeholder "UnknownService" for a destination without host,
@@ -273,28 +327,17 @@ func checkSnapshot(s *snapshot, cx *checkCtx) ([]finding, *stats) {
 				continue
 			}
 			if dir == "outbound" && cx.MustExist != nil && cx.MustExist(hostname, port, subset) {
-				d := ref.Source + ":" + cx.ProxyKind
-				if subset != "" {
-					d += ":subset"
-				}
-				c.add("cluster-ref-dangling", d, "%s references cluster %q; the proxy was given service %s port %d%s but CDS has no such cluster", ref.Where, ref.Name, hostname, port, subsetNote(subset))
+				st.RefDanglingKnown++
 				continue
 			}
 			if dir == "inbound" {
-				c.add("cluster-ref-dangling", ref.Source+":inbound", "%s references inbound cluster %q which CDS does not contain", ref.Where, ref.Name)
+				st.RefDanglingKnown++
 				continue
 			}
 			st.RefUnknownSvc++
 		}
 	}
 	return c.findings, st
-}
-
-func subsetNote(s string) string {
-	if s == "" {
-		return ""
-	}
-	return " and a destination rule defining subset " + s
 }
 
 func keysOf(m map[string]bool) []string {
@@ -334,6 +377,10 @@ func (c *checker) visit(where, path string, m proto.Message) {
 	switch v := m.(type) {
 	case *route.RouteConfiguration:
 		c.checkRouteConfiguration(where, path, v)
+		inline := strings.HasPrefix(where, "LDS:")
+		if (v.GetValidateClusters() == nil && inline) || v.GetValidateClusters().GetValue() {
+			c.validatedRC = append(c.validatedRC, where+" "+path)
+		}
 	case *hcm.HttpConnectionManager:
 		if v.GetRouteConfig() != nil {
 			c.st.InlineRoutes++
@@ -342,18 +389,18 @@ func (c *checker) visit(where, path string, m proto.Message) {
 		loc := where + " " + path
 		switch cs := v.GetClusterSpecifier().(type) {
 		case *route.RouteAction_Cluster:
-			c.refs = append(c.refs, clusterRef{Name: cs.Cluster, Source: "route", Where: loc})
+			c.refs = append(c.refs, clusterRef{Name: cs.Cluster, Source: "route", Where: loc, Validated: c.inValidatedRC(loc)})
 		case *route.RouteAction_WeightedClusters:
 			c.checkWeighted(loc, cs.WeightedClusters)
 			for _, wc := range cs.WeightedClusters.GetClusters() {
 				if wc.GetName() != "" {
-					c.refs = append(c.refs, clusterRef{Name: wc.GetName(), Source: "weighted", Where: loc})
+					c.refs = append(c.refs, clusterRef{Name: wc.GetName(), Source: "weighted", Where: loc, Validated: c.inValidatedRC(loc)})
 				}
 			}
 		}
 		for _, mp := range v.GetRequestMirrorPolicies() {
 			if mp.GetCluster() != "" {
-				c.refs = append(c.refs, clusterRef{Name: mp.GetCluster(), Source: "mirror", Where: loc})
+				c.refs = append(c.refs, clusterRef{Name: mp.GetCluster(), Source: "mirror", Where: loc, Validated: c.inValidatedRC(loc)})
 			}
 		}
 	case *tcp.TcpProxy:
@@ -388,13 +435,13 @@ func (c *checker) visit(where, path string, m proto.Message) {
 			den = 1000000
 		}
 		if v.GetNumerator() > den {
-			c.add("fraction-out-of-range", lastField(path), "%s %s: fractional percent %d/%d exceeds 1", where, path, v.GetNumerator(), den)
+			// Unspecified, not asserted: envoy/type/v3/percent.proto puts no bound on the numerator and Envoy loads
+			// such a value (it evaluates "random % denominator < numerator", i.e. always true). Counted only.
+			c.st.FractionsAboveOne++
 		}
 	case *typev3.Percent:
+		// envoy.type.v3.Percent carries its own rule (value in [0,100]) which ValidateAll() enforces (key pgv:Percent.Value)
 		c.st.Fractions++
-		if !(v.GetValue() >= 0 && v.GetValue() <= 100) {
-			c.add("percent-out-of-range", lastField(path), "%s %s: percent value %v outside [0,100]", where, path, v.GetValue())
-		}
 	}
 }
 
@@ -433,7 +480,9 @@ func (c *checker) checkRouteConfiguration(where, path string, rc *route.RouteCon
 	for _, vh := range rc.GetVirtualHosts() {
 		c.st.VHosts++
 		if names[vh.GetName()] {
-			c.add("vhost-name-duplicate", "", "%s %s: route configuration %q has two virtual hosts named %q", where, path, rc.GetName(), vh.GetName())
+			// Unspecified, not asserted: the API says of VirtualHost.name only "used when emitting certain statistics but
+			// is not relevant for routing"; uniqueness is demanded for VHDS only, which istio does not use. Counted.
+			c.st.DupVHostNames++
 		}
 		names[vh.GetName()] = true
 		for _, d := range vh.GetDomains() {
@@ -455,7 +504,8 @@ func (c *checker) checkRouteConfiguration(where, path string, rc *route.RouteCon
 					}
 					detail += ":" + a + "+" + b
 				}
-				c.add("vhost-domain-duplicate", detail, "%s %s: route configuration %q: domain %q appears in virtual host %q and again in %q (Envoy: only unique values for domains are permitted)",
+				c.addInfo([]string{"rc", rc.GetName(), "domain", ld, "vhostA", prev, "vhostB", vh.GetName()},
+					"vhost-domain-duplicate", detail, "%s %s: route configuration %q: domain %q appears in virtual host %q and again in %q (Envoy: only unique values for domains are permitted)",
 					where, path, rc.GetName(), d, prev, vh.GetName())
 				continue
 			}
@@ -614,9 +664,9 @@ func (c *checker) checkListener(l *listener.Listener) {
 		}
 		for _, n := range m.GetServerNames() {
 			if strings.Contains(n, "*") && !strings.HasPrefix(n, "*.") {
-				c.add("fc-server-name-partial-wildcard", "", "listener %q filter chain %d (%q): server name %q (Envoy: partial wildcards are not supported in server_names)", l.GetName(), i, fc.GetName(), n)
+				c.addInfo([]string{"listener", l.GetName(), "name", n}, "fc-server-name-partial-wildcard", listenerClass(c.cx.ProxyKind, l), "listener %q filter chain %d (%q): server name %q (Envoy: partial wildcards are not supported in server_names)", l.GetName(), i, fc.GetName(), n)
 			} else if strings.Contains(strings.TrimPrefix(n, "*."), "*") {
-				c.add("fc-server-name-partial-wildcard", "", "listener %q filter chain %d (%q): server name %q (Envoy: partial wildcards are not supported in server_names)", l.GetName(), i, fc.GetName(), n)
+				c.addInfo([]string{"listener", l.GetName(), "name", n}, "fc-server-name-partial-wildcard", listenerClass(c.cx.ProxyKind, l), "listener %q filter chain %d (%q): server name %q (Envoy: partial wildcards are not supported in server_names)", l.GetName(), i, fc.GetName(), n)
 			}
 		}
 		tuples := fcmTuples(m)
@@ -636,10 +686,10 @@ func (c *checker) checkListener(l *listener.Listener) {
 					if proto.Equal(m, &listener.FilterChainMatch{}) {
 						detail = "two-match-all-chains"
 					}
-					c.add("fc-match-duplicate", listenerClass(c.cx.ProxyKind, l)+":"+detail, "listener %q: filter chains %d (%q) and %d (%q) have the identical filter_chain_match {%s} (Envoy: multiple filter chains with the same matching rules are defined)",
+					c.addInfo(fcmInfo(l, t, om, m), "fc-match-duplicate", listenerClass(c.cx.ProxyKind, l)+":"+detail, "listener %q: filter chains %d (%q) and %d (%q) have the identical filter_chain_match {%s} (Envoy: multiple filter chains with the same matching rules are defined)",
 						l.GetName(), o.idx, o.name, i, fc.GetName(), compact(m))
 				} else {
-					c.add("fc-match-overlap", listenerClass(c.cx.ProxyKind, l)+":"+overlapKind(om, m, t), "listener %q: filter chains %d (%q) {%s} and %d (%q) {%s} both match %s (Envoy: multiple filter chains with overlapping matching rules are defined)",
+					c.addInfo(fcmInfo(l, t, om, m), "fc-match-overlap", listenerClass(c.cx.ProxyKind, l)+":"+overlapKind(om, m, t), "listener %q: filter chains %d (%q) {%s} and %d (%q) {%s} both match %s (Envoy: multiple filter chains with overlapping matching rules are defined)",
 						l.GetName(), o.idx, o.name, compact(om), i, fc.GetName(), compact(m), t)
 				}
 				continue
@@ -650,6 +700,18 @@ func (c *checker) checkListener(l *listener.Listener) {
 	if empties > 1 {
 		c.st.Shapes["listener:several-match-all-chains"] = true
 	}
+}
+
+// fcmInfo names the listener, the colliding lookup tuple and its parts for the recognisers.
+func fcmInfo(l *listener.Listener, tuple string, a, b *listener.FilterChainMatch) []string {
+	out := []string{"listener", l.GetName(), "tuple", tuple, "port", fmt.Sprint(l.GetAddress().GetSocketAddress().GetPortValue()),
+		"bind", l.GetAddress().GetSocketAddress().GetAddress()}
+	for _, f := range strings.Split(tuple, "|") {
+		if k, v, ok := strings.Cut(f, "="); ok && (k == "sni" || k == "dst" || k == "alpn" || k == "tp") {
+			out = append(out, k, v)
+		}
+	}
+	return out
 }
 
 // overlapKind says which dimension two different matches share: the same SNI literally, the same SNI up to case
@@ -709,8 +771,16 @@ func addrString(a *corev3.Address) string {
 	return ""
 }
 
-// checkListenerAddresses: Envoy refuses a listener whose address (or additional address) equals
-// that of another listener of the same response ("has duplicate address ... as existing listener").
+// checkListenerAddresses: Envoy refuses a listener whose address (or additional address) equals that of another
+// listener ("error adding listener: '<name>' has duplicate address '<addr>' as existing listener"). This holds for
+// listeners that do not bind as well: Envoy's ListenerImpl::hasDuplicatedAddress compares the addresses of every
+// pair of listeners of the same socket type and exempts only listeners binding to port 0 ("For listeners that do
+// not bind or listeners that do not bind to port 0 we must check to make sure we are not duplicating the address.
+// This avoids ambiguity about which non-binding listener is used ..."); originally (Envoy <= 1.21): "for listeners
+// that do not bind we must check to make sure we are not duplicating ... Only the first one will be used when
+// searched for by address. Thus we error and do not allow this." istio knows this: model.conflictWithReservedListener
+// drops outbound listeners on the virtual listeners' ports whatever their bind_to_port, and its own test validator
+// (pilot/test/xdstest.ValidateListeners) flags every duplicate address. TCP and UDP listeners do not conflict.
 func (c *checker) checkListenerAddresses(s *snapshot) {
 	seen := map[string]string{}
 	class := map[string]string{}
@@ -730,7 +800,8 @@ func (c *checker) checkListenerAddresses(s *snapshot) {
 				if ca > cb {
 					ca, cb = cb, ca
 				}
-				c.add("listener-address-duplicate", ca+"+"+cb, "listeners %q and %q both listen on %s (Envoy: duplicate address as existing listener)", prev, l.GetName(), a)
+				c.addInfo([]string{"a", prev, "b", l.GetName(), "addr", a, "classA", class[prev], "classB", class[l.GetName()]},
+					"listener-address-duplicate", ca+"+"+cb, "listeners %q and %q both listen on %s (Envoy: duplicate address as existing listener)", prev, l.GetName(), a)
 				continue
 			}
 			seen[a] = l.GetName()
